@@ -7,7 +7,7 @@
 (*   raw       the cells are stored with a doc action (as loaded) instead of a user action           *)
 (*   cells     the requested contents of X (and of the bystander Y), row by row: names of the value  *)
 (*             universe  i0 i1 i2 = 0 1 2, f15 = 1.5, se = '', sa = 'a', s1 = '1', nn = None,         *)
-(*             bt = True, l1 = ['L', 1], dt = 1704067200 (a date)                                    *)
+(*             bt = True, l1 = ['L', 1], dt = 1704067200 (a date); for references also l12 = ['L', 1, 2]  *)
 (* Families (Fams, a sequence) are fully enumerated sub-spaces, see QuickFams / ThoroughFams.         *)
 (*                                                                                                   *)
 (* The model of the engine (EngineCase) is written as the steps of doModifyColumn over ABSTRACT       *)
@@ -23,10 +23,11 @@ RefTypes == {"Ref:U", "RefList:U"}
 Univ == {"i0", "i1", "i2", "f15", "se", "sa", "s1", "nn", "bt", "l1", "dt"}
 Sub4 == {"i1", "sa", "nn", "l1"}
 Sub6 == {"i1", "f15", "sa", "nn", "bt", "l1"}
-RefSub == {"i0", "i1", "i2", "sa", "nn", "l1"}
+RefSub == {"i0", "i1", "i2", "sa", "nn", "l1", "l12"}
 Cols(S, lo, hi) == UNION {[1..k -> S] : k \in lo..hi}
 Fixed3 == { <<"i0", "s1", "bt">>, <<"f15", "se", "dt">>, <<"i2", "i1", "i1">>, <<"sa", "nn", "l1">>, <<"l1", "i1">> }
-RefCols == { <<>>, <<"i1">>, <<"i1", "i2", "sa">>, <<"l1", "i1", "i0">>, <<"i2", "i2", "nn">> }
+RefCols == { <<>>, <<"i1">>, <<"i1", "i2", "sa">>, <<"l12", "i1", "i0">>, <<"i2", "l12", "nn">> }
+RawCols == { <<"i1", "f15", "bt">>, <<"sa", "nn", "l1">> }
 
 Pairs == {p \in Types \X Types : p[1] # p[2]}
 RefPairs == {p \in Pairs : p[1] \in RefTypes}
@@ -35,10 +36,10 @@ Linked == {<<TRUE, FALSE>>, <<FALSE, TRUE>>, <<TRUE, TRUE>>}
 
 Fam(pairs, tv, raw, cols) == [pairs |-> pairs, tv |-> tv, raw |-> raw, cols |-> cols]
 QuickFams == <<
-  Fam(Pairs,    Plain,  FALSE, Cols(Univ, 0, 1)),     \* every type pair x every value
-  Fam(Pairs,    Plain,  FALSE, Fixed3),               \* several rows: the universe in five columns
-  Fam(RefPairs, Linked, FALSE, RefCols),              \* two-way references, shown columns
-  Fam(Pairs,    Plain,  TRUE,  Cols(Sub4, 1, 1)) >>   \* contents as loaded
+  Fam(Pairs,    Plain,  FALSE, Fixed3 \cup {<<>>}),       \* every type pair x every value (rows are independent)
+  Fam(Pairs,    Plain,  FALSE, Cols(Sub4, 1, 1)),         \* single cells
+  Fam(RefPairs, Linked, FALSE, RefCols),                  \* two-way references, shown columns
+  Fam(Pairs,    Plain,  TRUE,  RawCols) >>                \* contents as loaded
 ThoroughFams == <<
   Fam(Pairs,    Plain,  FALSE, Cols(Univ, 0, 2)),
   Fam(Pairs,    Plain,  FALSE, Cols(Sub6, 3, 3)),
@@ -70,7 +71,7 @@ StoredTok(in, v) == Tok("st", in.from, v)
 \* the type's conversion: `Any` keeps every value, every other type maps it somewhere else
 ConvTok(to, p) == IF to = "Any" THEN p ELSE Tok("cv", to, p.v)
 \* the column's conversion: reference columns treat lists and row ids in their own way
-CConvTok(to, p) == IF IsRef(to) /\ p.v \in {"l1", "i1", "i2"} THEN Tok("ccv", to, p.v) ELSE ConvTok(to, p)
+CConvTok(to, p) == IF IsRef(to) /\ p.v \in {"l1", "l12", "i1", "i2"} THEN Tok("ccv", to, p.v) ELSE ConvTok(to, p)
 
 E(t, c, r, k) == [t |-> t, c |-> c, r |-> r, k |-> k]
 M(t, c) == [t |-> t, c |-> c]
